@@ -5,7 +5,9 @@ CRATE = "hdisp"
 RUN_MODULE = "C29.Run"
 TWO_PHASE = True
 SHARDS = 16
-RULE = ("case = one burst of 2-30 method calls sent back-to-back (replies not awaited) over a fresh in-process p2p pair to four "
+RULE = ("about a quarter of the method calls (half in the bursts aimed at one spawn-disabled interface) carry the NO_REPLY_EXPECTED "
+        "header flag: no reply may come, and they must be executed in arrival order one at a time like the others; "
+        "case = one burst of 2-30 method calls sent back-to-back (replies not awaited) over a fresh in-process p2p pair to four "
         "#[interface] instances (two with task spawning enabled, two with spawn = false), &self and &mut self methods, plus "
         "Properties.Get/GetAll/Set, Introspect and calls to an unknown object; every handler runs a script of yields, 1-3 ms sleeps, "
         "signal emissions, object_server().at / remove on another or on its own path, object_server().interface() lookups; the server "
@@ -33,7 +35,30 @@ def script(rng, ops, maxlen=4):
     return ".".join(rng.choice(ops) for _ in range(n))
 
 
+def flag(rng, tok, p=0.25):
+    """give a method call the NO_REPLY_EXPECTED header flag with probability p"""
+    if tok[0] in "mf" and rng.random() < p:
+        h, _, sc = tok.partition(":")
+        return h + "!:" + sc
+    return tok
+
+
+def fire_and_forget(rng):
+    # one spawn-disabled interface, handlers that sleep / yield, about half of the calls fire-and-forget,
+    # closely followed by further calls to the same interface
+    k = rng.choice([2, 3])
+    n = rng.choice([3, 4, 6, 8, 12])
+    calls = []
+    for _ in range(n):
+        kk = k if rng.random() < 0.85 else rng.choice([0, 1, 5 - k])
+        tok = "%s%d:%s" % (rng.choice("mf"), kk, ".".join(rng.choice(["z2", "z3", "z4", "y2", "y5", "z1", "e"]) for _ in range(rng.randint(1, 3))))
+        calls.append(flag(rng, tok, 0.5))
+    return "D %s -,-,-,- %s" % (rng.choice(["i", "i", "1", "2", "3"]), " ".join(calls))
+
+
 def gen_case(rng, tier):
+    if rng.random() < 0.18:
+        return fire_and_forget(rng)
     style = rng.random()
     n = rng.choice([2, 3, 4, 6, 8, 12, 20, 30]) if rng.random() < 0.8 else rng.randint(2, 30)
     execm = rng.choice(["i", "i", "1", "2", "3"])
@@ -74,6 +99,7 @@ def gen_case(rng, tier):
             else:
                 k = rng.choice([2, 3])
                 calls.append("%s%d:%s" % (rng.choice("mf"), k, script(rng, AWAITS)))
+    calls = [flag(rng, c) for c in calls]
     return "D %s %s %s" % (execm, ",".join(getters), " ".join(calls))
 
 
@@ -105,6 +131,10 @@ def _inline(tok):
     return tok[0] in "mf" and tok[1] in "23"
 
 
+def _flagged(tok):
+    return tok.split(":")[0].endswith("!")
+
+
 def nontrivial(case, impl_out):
     w = case.split(" ")[3:]
     inl = [t for t in w if _inline(t) and ":" in t and t.split(":")[1] != "-"]
@@ -117,8 +147,10 @@ def classify(case, impl_out):
     n = len(w) - 3
     size = "2-4" if n <= 4 else ("5-12" if n <= 12 else "13-30")
     inl = sum(1 for t in w[3:] if _inline(t))
-    return "%s:calls%s:inline%s:%s:exec%s" % (impl_out.split("#")[0], size, "0" if inl == 0 else ("1" if inl == 1 else "2+"),
-                                            "overlap" if _overlap(_events(impl_out)) else "serial", w[1])
+    nf = sum(1 for t in w[3:] if _inline(t) and _flagged(t))
+    return "%s:calls%s:inline%s:noreply-inline%s:%s:exec%s" % (impl_out.split("#")[0], size, "0" if inl == 0 else ("1" if inl == 1 else "2+"),
+                                                             "0" if nf == 0 else ("1" if nf == 1 else "2+"),
+                                                             "overlap" if _overlap(_events(impl_out)) else "serial", w[1])
 
 
 def search(rng, bad_cases):
